@@ -3,6 +3,8 @@ package core
 import (
 	"fmt"
 	"go/token"
+	"go/types"
+	"sort"
 	"strings"
 
 	"golang.org/x/tools/go/ssa"
@@ -212,6 +214,9 @@ func (pt *Path) Desc(v ssa.Value) string {
 			if sv := pt.lastStore(a, u); sv != nil {
 				return pt.Desc(sv)
 			}
+			if lit := pt.fieldwise(a, u); lit != "" {
+				return lit
+			}
 		}
 	}
 	return pt.D.Of(v)
@@ -307,4 +312,51 @@ func (pt *Path) AtomsBefore(ins ssa.Instruction) []Atom {
 // HasBefore reports whether atom was assumed before reaching ins.
 func (pt *Path) HasBefore(ins ssa.Instruction, atom string) bool {
 	return HasAtom(pt.AtomsBefore(ins), ParseAtom(atom))
+}
+
+// fieldwise renders a struct local that is assigned field by field (go/ssa
+// writes `x = T{...}` straight into x's fields) as the literal made of the
+// last value stored to each field on the path before the given instruction.
+func (pt *Path) fieldwise(a *ssa.Alloc, before ssa.Instruction) string {
+	ptr, ok := a.Type().Underlying().(*types.Pointer)
+	if !ok {
+		return ""
+	}
+	st, ok := ptr.Elem().Underlying().(*types.Struct)
+	if !ok {
+		return ""
+	}
+	last := map[string]ssa.Value{}
+	done := false
+	for _, b := range pt.Blocks {
+		if done {
+			break
+		}
+		for _, ins := range b.Instrs {
+			if ins == before {
+				done = true
+				break
+			}
+			s, ok := ins.(*ssa.Store)
+			if !ok {
+				continue
+			}
+			if fa, ok := s.Addr.(*ssa.FieldAddr); ok && fa.X == a {
+				last[st.Field(fa.Field).Name()] = s.Val
+			}
+		}
+	}
+	if len(last) == 0 {
+		return ""
+	}
+	var names []string
+	for n := range last {
+		names = append(names, n)
+	}
+	sort.Strings(names)
+	var parts []string
+	for _, n := range names {
+		parts = append(parts, n+":"+pt.Desc(last[n]))
+	}
+	return typeShort(ptr.Elem()) + "{" + strings.Join(parts, ",") + "}"
 }
